@@ -63,8 +63,8 @@ def run_pattern(args):
             if viol is None and t_arr:
                 pn = sorted(t_arr)[0]
                 viol = ({"monitor": "ack.late", "part": "gaps"},
-                        "pattern %r: ack-eliciting packet %d (largest at arrival) not acknowledged within "
-                        "25 ms although the timer was fired when asked" % (seq, pn - base))
+                        "pattern %s: ack-eliciting packet %d (largest at arrival) not acknowledged within "
+                        "25 ms although the timer was fired when asked" % (_pat(seq), pn - base))
         except core.HarnessError:
             raise
         except Exception as e:  # noqa
@@ -75,6 +75,11 @@ def run_pattern(args):
         if viol:
             res["viol"].append((viol[0], viol[1], {"role": role, "pattern": list(seq)}))
     return res
+
+
+def _pat(seq):
+    seq = list(seq)
+    return repr(seq) if len(seq) <= 8 else "[%d, %d, %d, ... %d] (%d arrivals)" % (seq[0], seq[1], seq[2], seq[-1], len(seq))
 
 
 def _cover(r, t_arr):
@@ -95,9 +100,21 @@ def _check_acks(r, delivered, seq):
                     bad = [pn for pn in range(lo, hi + 1) if pn not in delivered]
                     if bad:
                         return ({"monitor": "ack.unsound", "part": "gaps"},
-                                "pattern %r: ACK lists packet numbers %r that were never delivered (ranges %r)"
-                                % (seq, bad[:6], f["ranges"]))
+                                "pattern %s: ACK lists packet numbers %r that were never delivered (ranges %r)"
+                                % (_pat(seq), bad[:6], f["ranges"][:8]))
     return None
+
+
+def long_patterns(tier):
+    """The peer skips every other (every third) packet number N times: more ACK ranges than one frame can
+    carry once N > ~76 - the frame must then carry the NEWEST ranges; also descending arrival."""
+    ns = (40, 76, 77, 78, 120) if tier == "quick" else (10, 40, 70, 75, 76, 77, 78, 79, 90, 120, 200, 300)
+    out = []
+    for n in ns:
+        out.append(tuple(range(0, 2 * n, 2)))
+        out.append(tuple(range(0, 3 * n, 3)))
+    out.append(tuple(range(2 * 100, 0, -2)))
+    return out
 
 
 def run_gaps(ctx):
@@ -106,6 +123,8 @@ def run_gaps(ctx):
     for role in ("server", "client"):
         for i in range(0, len(pats), 40):
             tasks.append((role, pats[i:i + 40]))
+        for lp in long_patterns(ctx.tier):
+            tasks.append((role, [lp]))
     results = core.pmap(run_pattern, tasks)
     n = 0
     outcomes = set()
